@@ -455,7 +455,7 @@ func seamA(rep *ev.Report) {
 		"P2":               "ALPN first value (8 variants) x supported_versions (7) x legacy version (3) x signature_algorithms (4) x SNI (2)",
 		"P2b":              "status_request_v2 with two RFC 6961-valid bodies (first item ocsp(1) / ocsp_multi(2)); 9 extension types that utls parses but crypto/tls ignores x 4 minimal bodies",
 		"P3":               fmt.Sprintf("every cipher sequence (repetition allowed) of length 0..%d over {0x0a0a,0xfafa GREASE, 0x1301,0xc02b,0x002f,0x00ff}", CL),
-		"P4":               "cipher counts and extension counts 97..102 and 150 (with and without extra GREASE)",
+		"P4":               "cipher counts and extension counts 97..102, 150, 255..257, 300, 512, 1000 (with and without extra GREASE)",
 		"P5":               fmt.Sprintf("24 base hellos: all permutations of %d ciphers x all permutations of up to %d extensions; all single GREASE insertions (16 values, every position) into ciphers / extensions (2 bodies) / supported_versions / supported_groups / key_share / signature_algorithms, all double insertions with 2 values", permC, permX),
 		"P6":               "every 16-bit value as cipher (2 contexts), extension type (empty and 1-byte body), signature algorithm, supported_versions entry (2 contexts), legacy version; every byte value as first / last / only byte of the first ALPN value; every first-ALPN length 1..255",
 		"P7":               "ClientHellos found in /repo/pkg/ja4pcap/testdata/pcap",
@@ -588,7 +588,7 @@ func seamA(rep *ev.Report) {
 
 	// ---- P4: counts around the two-digit cap -------------------------------------------------
 	r.phase = "P4_count_cap"
-	for _, n := range []int{97, 98, 99, 100, 101, 102, 150} {
+	for _, n := range []int{97, 98, 99, 100, 101, 102, 150, 255, 256, 257, 300, 512, 1000} { // around the two-digit cap and around the widths of the integer types a count could be kept in
 		for _, g := range []bool{false, true} {
 			if r.mine() {
 				cs := make([]uint16, 0, n+1)
